@@ -35,6 +35,7 @@ def run(ctx, rep):
     # B8: the declared types a binding spells are those of *its* instantiation: exact substitution (C02/S1)
     # applied to private copies (C13/P1)
     rep.run(RI.rule_coverage, ctx, rep, "B8", min_sites=10)
+    rep.run(RI.rule_template_argument_identity, ctx, rep, "B8")
     rep.run(RA.rule_mutate_only_fresh, ctx, rep, "B8", "gtwrap/template_instantiator",
             P1_EXEMPT, min_sites=20)
     rep.run(RF.rule_locals_defined, ctx, rep, "U1", packages=("gtwrap/pybind_wrapper.py",), min_functions=3)
